@@ -84,6 +84,27 @@ def run(ctx):
     fields = cli_fields(bin_)
     if not ctx.floor("CLI-1", "Cli fields with #[arg(name=..)]", len([f for f in fields.values() if f["flag"]]), 18):
         return
+    # CLI-6: relations between arguments
+    ctx.rule("CLI-6", "the only clap relations between arguments (requires / conflicts_with / required_unless.. / exclusive / overrides..) are the documented ones: any other "
+                      "makes the CLI reject a flag combination for which the library returns a result")
+    allowed = {k: {tuple(x) for x in v} for k, v in api.get("cli_relations", {}).items() if not k.startswith("_")}
+    nrel = 0
+    for a in bin_.attrs:
+        if a["kind"] != "field":
+            continue
+        for at in a["attrs"]:
+            if at["path"] != "arg":
+                continue
+            rels = re.findall(r"\b(requires\w*|conflicts_with\w*|required\w*|exclusive|overrides_with\w*|default_value_if\w*|default_missing_value\w*|groups?)\s*=\s*(\"[^\"]*\"|\[[^\]]*\]|[A-Za-z_0-9:]+)", at["text"])
+            for kind, val in rels:
+                nrel += 1
+                v = val.strip('"')
+                if (kind, v) in allowed.get(a["name"], set()):
+                    ctx.ok("CLI-6", "%s: %s = %s (documented)" % (a["name"], kind, v), None)
+                else:
+                    ctx.violation("CLI-6", (a["name"], "%s = %s" % (kind, v)), "argument `%s` declares %s = %s, which is not a documented relation: clap then refuses command lines "
+                                  "(usage error, exit status 2) for which the library with the same settings returns a pattern" % (a["name"], kind, v))
+    ctx.floor("CLI-6", "documented relations found in the argument definitions", nrel, sum(len(v) for v in allowed.values()))
     hi = find_handle_input(bin_)
     if hi is None:
         ctx.anchor_lost("CLI-1", "bin function calling RegExpBuilder::build")
